@@ -14,11 +14,16 @@ Init0 == [run |-> -1, subnets |-> <<>>, lat |-> 0, claims |-> {}, wires |-> {}, 
 Viol(t, e, clause) ==
   IF Cardinality({x \in t.bad : x.clause = clause}) >= 3 THEN [t EXCEPT !.nbad = @ + 1]
   ELSE [t EXCEPT !.bad = @ \cup {[run |-> t.run, i |-> e.i, clause |-> clause]}, !.nbad = @ + 1]
-\* byte-aligned subnet masks: same network iff the first mask/8 bytes agree
-SameNet(a, b, mask) == \A k \in 1..(mask \div 8) : a[k] = b[k]
+\* same network iff the first `mask` bits agree (whole bytes, then the leading bits of the next byte)
+Pow2(n) == IF n = 0 THEN 1 ELSE IF n = 1 THEN 2 ELSE IF n = 2 THEN 4 ELSE IF n = 3 THEN 8 ELSE IF n = 4 THEN 16 ELSE IF n = 5 THEN 32 ELSE IF n = 6 THEN 64 ELSE 128
+SameNet(a, b, mask) ==
+  LET full == mask \div 8
+      r == mask - 8 * full
+  IN /\ \A k \in 1..full : a[k] = b[k]
+     /\ (r = 0 \/ full >= 4 \/ (a[full + 1] \div Pow2(8 - r)) = (b[full + 1] \div Pow2(8 - r)))
 Target(t, m, local, remote) ==
   LET sn == t.subnets[m + 1] IN
-  IF sn.set /\ local = <<10, m, 0, 1>> /\ ~SameNet(local, remote, sn.mask) THEN T(sn.gw) ELSE remote
+  IF sn.set /\ local = T(sn.addr) /\ ~SameNet(local, remote, sn.mask) THEN T(sn.gw) ELSE remote
 Owners(t, ip) == {c \in t.claims : c.ip = ip}
 Step(t, e) ==
   LET t0 == [t EXCEPT !.events = @ + 1] IN
